@@ -33,7 +33,7 @@ def plan(tier, seed):
 def required(tier):
     r = {"fold-data": 50, "fold-mask": 50, "fold-total": 50, "fold-mirror-invariant": 50, "fold-idempotent": 50,
             "misid-convex": 50, "mixed-folding-refused": 50, "binop-attrs": 200, "iop-attrs": 100, "slice-attrs": 50,
-            "ll-keeps-attrs": 10, "ll-result-mask-is-union": 10}
+            "ll-keeps-attrs": 10, "ll-result-mask-is-union": 10, "refused-operation-changes-nothing": 50, "autofold-equals-explicit-fold": 10}
     r.update({'ambient-fold': 20, 'ambient-fold-mask': 20})
     return r
 
@@ -227,12 +227,18 @@ def run(spec, rec):
             # folded with unfolded must be refused by every operator
             for opname, op in BINOPS + IOPS:
                 tags = {"op": opname, "folded": folded}
+                left = a.copy()
+                lw = (left.data.copy(), np.asarray(left.mask).copy(), wrong.data.copy(), np.asarray(wrong.mask).copy())
                 try:
-                    op(a.copy(), wrong)
+                    op(left, wrong)
                     rec.check("mixed-folding-refused", False, site="Spectrum.__%s__" % opname, tags=tags,
                               observed="accepted", expected="ValueError")
                 except ValueError:
                     rec.check("mixed-folding-refused", True, site="Spectrum.__%s__" % opname, tags=tags)
+                    # refused means not carried out: both operands are what they were (matters for the in-place operators)
+                    kept = (np.array_equal(left.data, lw[0]) and np.array_equal(np.asarray(left.mask), lw[1]) and left.folded == folded
+                            and np.array_equal(wrong.data, lw[2]) and np.array_equal(np.asarray(wrong.mask), lw[3]) and wrong.folded == (not folded))
+                    rec.check("refused-operation-changes-nothing", bool(kept), site="Spectrum.__%s__" % opname, tags=tags)
                 except Exception as e:
                     rec.check("mixed-folding-refused", False, site="Spectrum.__%s__" % opname, tags=tags, observed=repr(e))
             # slicing, unary, log
@@ -277,6 +283,13 @@ def run(spec, rec):
                     inner.flat[0] = inner.flat[-1] = False
                     rec.check("ll-result-mask-is-union", om.shape == want.shape and np.array_equal(om[inner], want[inner]), site="Inference." + fname,
                               tags={"data_folded": bool(data.folded)}, observed=om.astype(int), expected=want.astype(int))
+                if ok and data.folded and fname in ("ll", "ll_multinom", "optimal_sfs_scaling"):
+                    # the model is folded automatically against folded data: same value as with the model folded by hand,
+                    # whatever else is masked in the data
+                    ok2, out2 = rec.noraise("ll-returns", lambda: getattr(Inference, fname)(mf, data), site="Inference." + fname)
+                    if ok2 and np.isfinite(float(out2)):
+                        rec.close("autofold-equals-explicit-fold", abs(float(out) - float(out2)) / max(abs(float(out2)), 1.0), 1e-10, site="Inference." + fname,
+                                  tags={"extra_data_mask": bool((np.asarray(data.mask) & ~np.asarray(mf.mask)).any())})
                 same = (np.array_equal(model.data, snap[0]) and np.array_equal(np.asarray(model.mask), snap[1]) and model.folded == snap[2]
                         and model.pop_ids == snap[3] and np.array_equal(data.data, snap[4]) and np.array_equal(np.asarray(data.mask), snap[5])
                         and data.folded == snap[6] and data.pop_ids == snap[7])
